@@ -36,7 +36,7 @@ func init() {
 			ruleJ3(c, adj)
 			ruleJ4(c, inj)
 		},
-		explanation: "Decides the lookup and all-or-nothing structure of the two sample plugins (analysed in their own modules): the injector's candidate annotation keys are key/container.<name>, key/pod, key in that order and the adjuster's is key/container.<name> only, the name being the container's own name; the annotation map is only ever indexed with these exact keys (never ranged over or prefix-matched) and the first hit wins; every return carrying a non-nil error returns nil for the adjustment and the updates, and every error of a helper is returned by its caller up to CreateContainer; an rlimit is emitted only on the branch where hard >= soft, with the type that passed the lookup in the table of valid names after upper-casing and prefix-trimming, re-prefixed; the annotation-to-NRI conversions cover every field of the annotation structs under the same name, and their optional-constructor calls pass accepted types.",
+		explanation: "Decides the lookup and all-or-nothing structure of the two sample plugins (analysed in their own modules): the injector's candidate annotation keys are key/container.<name>, key/pod, key in that order and the adjuster's is key/container.<name> only, the name being the container's own name; the annotation map is only ever indexed with these exact keys (never ranged over or prefix-matched) and the first hit wins; every return carrying a non-nil error returns nil for the adjustment and the updates, and every error of a helper is returned by its caller up to CreateContainer; an rlimit is emitted only on the branch where hard >= soft, with the type that passed the lookup in the table of valid names after upper-casing and prefix-trimming, re-prefixed; the annotation-to-NRI conversions cover every field of the annotation structs under the same name, and their optional-constructor calls pass accepted types. Errors of helpers called through function values are propagated at once as well.",
 		notDecided: []string{
 			"YAML decoding",
 			"the end-to-end behaviour through the stub and the runtime",
